@@ -494,7 +494,7 @@ def main(rep, tier):
                 vals["input"] = ascii(_TEXT_MENU[smp["values"].get("text", 0)]) + " at position %s" % smp["values"].get("where")
             if isinstance(smp["info"], dict) and "routes" in smp["info"]:
                 # the distinct differences over all routes: a finding pinned on `details` covers a sample only if it shows nothing else
-                vals["details"] = " | ".join(sorted({str(d) for _, d in smp["info"]["routes"]}))
+                vals["details"] = " | ".join(sorted({str(r_[1]) for r_ in smp["info"]["routes"]}))
             if not r.get("reproduced"):
                 rep.inconc(f"counterexample of class {cls} on {shape}/skip_default={sd} did not reproduce through the real text: {smp['info']} -> {r}")
                 continue
